@@ -1,7 +1,7 @@
 //! Re-runs one recorded case (the part of a protocol line before `=>`) through the real code.
 use crate::gen::Out;
 
-fn unhex(s: &str) -> Vec<u8> {
+pub fn unhex(s: &str) -> Vec<u8> {
     if s == "-" {
         return Vec::new();
     }
@@ -54,14 +54,27 @@ pub fn rerun(line: &str) -> Option<String> {
             let o = crate::common::Opts { ecl: optn(e), mode: optn(m), version: optn(v), mask: optn(k) };
             Some(crate::gen::svg_line(&unhex(hx), o, &crate::svgops::parse(ops)?))
         }
-        ["wasm", hx, ops] => Some(crate::wasmops::wasm_line(
+        ["wasm", hx, ops] | ["wasmn", hx, ops] => Some(crate::wasmops::wasm_line(
             &String::from_utf8(unhex(hx)).ok()?, &crate::wasmops::parse(ops)?)),
         ["wasmqr", hx] => Some(crate::wasmops::wasmqr_line(&String::from_utf8(unhex(hx)).ok()?)),
+        ["buildafterx", hx, e, m, v, k] => Some(crate::gen::buildafterx_line(
+            &unhex(hx), crate::common::Opts { ecl: optn(e), mode: optn(m), version: optn(v), mask: optn(k) })),
+        ["svgt", hx, e, m, v, k, ops] => Some(crate::gen::svgt_line(
+            &unhex(hx), crate::common::Opts { ecl: optn(e), mode: optn(m), version: optn(v), mask: optn(k) }, &crate::svgops::parse(ops)?)),
+        ["termt", hx, e, m, v, k] => Some(crate::gen::termt_line(
+            &unhex(hx), crate::common::Opts { ecl: optn(e), mode: optn(m), version: optn(v), mask: optn(k) })),
+        ["termp", hx, e, m, v, k] => Some(crate::gen::termp_line(
+            &unhex(hx), crate::common::Opts { ecl: optn(e), mode: optn(m), version: optn(v), mask: optn(k) })),
+        ["pixt", hx, e, m, v, k, ops, fw, fh] => {
+            let o = crate::common::Opts { ecl: optn(e), mode: optn(m), version: optn(v), mask: optn(k) };
+            Some(crate::pixops::pixt_line(&unhex(hx), o, &crate::svgops::parse(ops)?, fw.parse().ok(), fh.parse().ok()))
+        }
         ["termx", hx, e, m, v, k, v2] => {
             let o = crate::common::Opts { ecl: optn(e), mode: optn(m), version: optn(v), mask: optn(k) };
             Some(crate::gen::termx_line(&unhex(hx), o, v2.parse().ok()?))
         }
         ["reuse", a, b, ops] => Some(crate::histops::reuse_line(&unhex(a), &unhex(b), &crate::svgops::parse(ops)?)),
+        ["afterx", a, e] => Some(crate::histops::afterx_line(&unhex(a), optn(e))),
         ["after", a, b, e] => Some(crate::histops::after_line(&unhex(a), &unhex(b), optn(e))),
         ["hist", hx, ops] => Some(crate::histops::hist_line(&unhex(hx), &crate::histops::parse(ops)?)),
         ["threads", t, seed, k] => Some(crate::histops::threads_line(t.parse().ok()?, seed.parse().ok()?, k.parse().ok()?)),
